@@ -207,3 +207,24 @@ TEXT["C08"] = {
             "exists_nonversioned, delete paths, the JSON decode of a complete memento file, concurrent writers (C09). Found and repaired: D11 (link files were created empty and filled in place).",
     "technique": "contract-based deductive verification: own VC generator over the real source + z3/cvc5",
 }
+
+# ---- additions after the audit round (appended to the texts above)
+TEXT["C01"]["note"] += (" Further known findings (genuine, tied to their clauses, not repaired for the same reason): co_exceptiontable and co_posonlyargcount are not hashed. "
+                        "Reproduced by an audit and outside every contract: rule-key collisions of same-named functions (lambdas), the limits of the dependency analysis "
+                        "(decorator arguments, closure cells, lru_cache / un-wrapped helpers, local imports), non-injective serialisation of tracked variables (DESIGN 9.4).")
+TEXT["C02"]["note"] += (" to_exception is proved never to raise (whatever fails while rebuilding, the MementoException itself is the result -- D20, repaired); with ignore_result a memoized "
+                        "exception is still converted back and propagated, only values are dropped (D24, repaired).")
+TEXT["C03"]["note"] += (" Rule keys are now under contract: each HashRule constructor is proved to build the key from kind, parent namespace and the entity's identity (module and QUALIFIED name for a "
+                        "plain function), HashRule.__eq__/__hash__/__lt__ go by key, and sorted(<set of rules>[, key=f]) carries the obligation that the order is total on the set's members; that two "
+                        "different functions never share a qualified name (lambdas do) remains an assumption.")
+TEXT["C04"]["level"] += (" The binding specification is the law the property states: positional arguments -- those of the partial application first, then those of the call -- fill, in order, the parameters "
+                         "no partial keyword binds, so moving an argument of a call into a partial application changes neither the binding nor the key (D14, repaired).")
+TEXT["C04"]["note"] += (" Known finding (tied to its clause): a user dict with a '_mementoType' key is indistinguishable from a tagged encoding (D15). Not claimed: default values are not part of the key.")
+TEXT["C06"]["note"] = TEXT["C06"]["note"].replace("Assumed: _estimate_object_size returns a non-negative int;",
+                        "Assumed: _estimate_object_size returns a non-negative int (its pandas branch _pd_linreg_mem_usage is proved non-negative -- D23, repaired; sys.getsizeof and pandas memory_usage are assumed "
+                        "non-negative; how close the estimate is to the real size is not claimed);")
+TEXT["C08"]["level"] += (" After an I/O error anywhere in memoize the memory cache is proved coherent with the store (it must not report a call the store lacks -- D19, repaired: the cache is written through after the store).")
+TEXT["C11"]["note"] += (" Known finding (tied to its clause): NaN / Infinity arguments are emitted as bare tokens, which is not plain JSON (D17).")
+TEXT["C17"]["level"] += (" A stored partition is proved to record its WHOLE stored index, so it can be the merge parent of a later one (chains of any length, D13 repaired); a partition read back from the store "
+                         "and returned again is stored with all of its keys, inherited ones included (D21, repaired).")
+TEXT["C19"]["note"] += (" NullStorageBackend.list_mementos is proved to return an empty list (D22, repaired).")
